@@ -194,6 +194,7 @@ structure Run (σ : Type) where
   outcome : Outcome
   data : Vec
   hist : List Rat          -- squared normalized residuals, one per iteration
+  raw : List Rat           -- squared Euclidean norms of the residuals (only used to size float noise)
   sd : σ                   -- scaling data after the run
 
 /-- The `while True` loop shared by `MDAJacobi`, `MDAGaussSeidel` and `MDANewtonRaphson`.
@@ -205,18 +206,20 @@ structure Run (σ : Type) where
     `fuel` only bounds the replay; `iter` is `_current_iter`. -/
 def mdaLoop {σ τ : Type} (sweep : Vec → Vec) (resid : Vec → Vec → Vec) (norm : σ → Vec → Rat × σ)
     (update : τ → Vec → Vec → Vec → Option (Vec × τ)) (tolSq : Rat) (maxIter : Nat) :
-    Nat → Nat → Vec → τ → σ → List Rat → Run σ
-  | 0, _, data, _, sd, hist => ⟨.capped, data, hist, sd⟩
-  | fuel + 1, iter, data, ts, sd, hist =>
+    Nat → Nat → Vec → τ → σ → List Rat → List Rat → Run σ
+  | 0, _, data, _, sd, hist, raw => ⟨.capped, data, hist, raw, sd⟩
+  | fuel + 1, iter, data, ts, sd, hist, raw =>
     let after := sweep data
     let r := resid data after
     let (nsq, sd') := norm sd r
     let hist' := hist ++ [nsq]
-    if nsq ≤ tolSq then ⟨.converged, after, hist', sd'⟩
-    else if maxIter ≤ iter + 1 then ⟨.maxIter, after, hist', sd'⟩
+    let raw' := raw ++ [normSq r]
+    if nsq ≤ tolSq then ⟨.converged, after, hist', raw', sd'⟩
+    else if maxIter ≤ iter + 1 then ⟨.maxIter, after, hist', raw', sd'⟩
     else match update ts data after r with
-      | Option.none => ⟨.nan, after, hist', sd'⟩
-      | some (next, ts') => mdaLoop sweep resid norm update tolSq maxIter fuel (iter + 1) next ts' sd' hist'
+      | Option.none => ⟨.nan, after, hist', raw', sd'⟩
+      | some (next, ts') =>
+        mdaLoop sweep resid norm update tolSq maxIter fuel (iter + 1) next ts' sd' hist' raw'
 
 -- ------------------------------------------------------------------ instances
 
@@ -302,12 +305,12 @@ def execute (s : Sys) (c : Cfg) (fuel : Nat) (st : MState) (start : Vec) : Run (
   let tolSq := c.tol * c.tol
   match c.algo with
   | .jacobi =>
-    mdaLoop (jacobiSweep s) (residOn c.res) norm (fpUpdate c) tolSq c.maxIter fuel 0 start {} st.sd []
+    mdaLoop (jacobiSweep s) (residOn c.res) norm (fpUpdate c) tolSq c.maxIter fuel 0 start {} st.sd [] []
   | .gaussSeidel =>
     let first := gsSweep s start
-    if c.maxIter = 0 then ⟨.maxIter, first, [], st.sd⟩
-    else mdaLoop (gsSweep s) (residOn c.res) norm (fpUpdate c) tolSq c.maxIter fuel 0 first {} st.sd []
+    if c.maxIter = 0 then ⟨.maxIter, first, [], [], st.sd⟩
+    else mdaLoop (gsSweep s) (residOn c.res) norm (fpUpdate c) tolSq c.maxIter fuel 0 first {} st.sd [] []
   | .newton =>
-    mdaLoop (jacobiSweep s) (residOn c.res) norm (newtonUpdate s c) tolSq c.maxIter fuel 0 start {} st.sd []
+    mdaLoop (jacobiSweep s) (residOn c.res) norm (newtonUpdate s c) tolSq c.maxIter fuel 0 start {} st.sd [] []
 
 end GV.C06
